@@ -65,8 +65,9 @@ def _landscape_cases(tier):
                 for tilt in ("none", "y50:gen0"):
                     for ups in (1, 2) if tier == "quick" else (1, 2, 3):
                         for d in ds:
-                            out.append({"kind": "landscape", "shape": list(shape), "model": model, "mask": mask, "tilt": tilt,
-                                        "upsample": ups, "d": list(d)})
+                            for off in (0.4, 5.0):  # a large constant offset separates mean-padding from zero-padding (uncentred NCC)
+                                out.append({"kind": "landscape", "shape": list(shape), "model": model, "mask": mask, "tilt": tilt,
+                                            "upsample": ups, "d": list(d), "offset": off})
     return out
 
 
@@ -226,7 +227,7 @@ def _run_landscape(case):
     model, t, m, quat = _get_model(shape, mname, case["mask"], None, case["tilt"])
     d = np.asarray(case["d"], dtype=np.float64)
     ups = case["upsample"]
-    img = (2.0 * data.particle_box(shape, shift=d, blobs=_blobs(shape)) + 0.2 * 2.0).astype(np.float32)
+    img = (2.0 * data.particle_box(shape, shift=d, blobs=_blobs(shape)) + case.get("offset", 0.4)).astype(np.float32)
     M = (2.0, 2.0, 2.0)
     q = quat if quat is not None else np.array([0, 0, 0, 1], dtype=np.float32)
     res = model.align(img, M, quaternion=q)
